@@ -437,6 +437,47 @@ def job_random_circuits(tier, rng, n, count):
                sample=dict(n=n, gates=[(g.name, repr(i)) for g, i in _random_circuit(np.random.default_rng(0), n, 3)[0].gate_index_list]))]
 
 
+def job_circuit_histories(tier, rng):
+    """a circuit's unitary / action must reflect the circuit AS IT IS NOW: after a query, change a parameter in place (set_args), append a gate, shift the indices, and query again"""
+    bad = None; cnt = 0
+    G = numqi.gate
+
+    def chk(ok, **w):
+        nonlocal bad, cnt
+        cnt += 1
+        if not ok and bad is None:
+            bad = jsonable(w)
+    for t in range(20 if tier == 'quick' else 100):
+        n = int(rng.integers(2, 4))
+        a, b, a2, b2 = (float(x) for x in rng.uniform(0.1, 3.0, 4))
+        try:
+            c = numqi.sim.Circuit()
+            g0 = c.rx(0, a); c.cnot(0, 1); g1 = c.ry(n - 1, b)
+            oracle = lambda x, y, extra=(): (lambda ops: __import__('functools').reduce(lambda U, E: E @ U, ops, np.eye(2 ** n, dtype=complex)))(
+                [_kron_embed(G.rx(x), [0], n), SS.ctrl_embed(np.asarray(G.X, dtype=complex), [0], [1], n), _kron_embed(G.ry(y), [n - 1], n)] + list(extra))
+            q = _rc(rng, 2 ** n)
+            chk(np.abs(c.to_unitary() - oracle(a, b)).max() < 1e-9, step='fresh', n=n)
+            g0.set_args((a2,)); g1.set_args((b2,))
+            chk(np.abs(c.to_unitary() - oracle(a2, b2)).max() < 1e-9 and np.abs(c.apply_state(q) - oracle(a2, b2) @ q).max() < 1e-9, step='after set_args', n=n, args=[a, b, a2, b2])
+            c.H(0)
+            ex = [_kron_embed(G.H, [0], n)]
+            chk(np.abs(c.to_unitary() - oracle(a2, b2, ex)).max() < 1e-9 and np.abs(c.apply_state(q) - oracle(a2, b2, ex) @ q).max() < 1e-9, step='after append', n=n)
+            g0.set_args((a,))
+            chk(np.abs(c.to_unitary() - oracle(a, b2, ex)).max() < 1e-9, step='after second set_args (same gate count)', n=n)
+            if n + 1 <= 4:
+                c.shift_qubit_index_(1)
+                U2 = c.to_unitary()
+                chk(U2.shape == (2 ** (n + 1),) * 2 and np.abs(U2 - np.kron(np.eye(2), oracle(a, b2, ex))).max() < 1e-9, step='after shift_qubit_index_', n=n)
+        except Exception as e:
+            from vf.prover import from_repo
+            if not from_repo(e):
+                raise
+            chk(False, step='exception', n=n, exception=f'{type(e).__name__}: {e}')
+    return [ob(f'{PROP}.circuit_histories.query_modify_query', 'pass' if bad is None else 'refuted', tier='B', backend='native',
+               functions=['numqi.sim.circuit:Circuit.to_unitary', 'numqi.sim.circuit:Circuit.apply_state', 'numqi.sim.circuit:Circuit.shift_qubit_index_', 'numqi.sim._internal:ParameterGate.set_args'],
+               evaluations=cnt, distinct_nontrivial=cnt, witness=bad, native=dict(confirmed=bad is not None), sample=dict(steps=['fresh', 'set_args', 'append', 'set_args', 'shift']))]
+
+
 def job_custom_gate(tier, rng):
     """user-registered custom gate: forward() is called at its position in the circuit"""
     class Phase:
@@ -493,6 +534,7 @@ def jobs(tier):
         J.append(('job_identity', dict(cname='dm.operator_expectation', shapes=cfg)))
     J.append(('job_identity', dict(cname='state.inner_product_psi0_O_psi1', shapes=[(2, (((0,), (1, 0)), ((1,),))), (3, (((2, 0), (1,)), ((0,), (1,), (2,))))])))
     J.append(('job_identity', dict(cname='Circuit.to_unitary', shapes=[1, 2])))
+    J.append(('job_circuit_histories', {}))
     J.append(('job_circuit_dispatch', {}))
     J.append(('job_shift_index', {}))
     J.append(('job_recording', {}))
